@@ -275,3 +275,28 @@ func NIA(alg uint8, key []byte, count uint32, bearer, direction uint8, msg []byt
 	}
 	return nil, fmt.Errorf("sec: unsupported NIA algorithm %d", alg)
 }
+
+// ---- helpers for monitors that aim a message at particular field elements of 128-EIA1's evaluation
+
+// EIA1Params returns P and Q (the first four keystream words) of the 128-EIA1 evaluation for these parameters.
+func EIA1Params(key []byte, count uint32, bearer, direction uint8) (p, q uint64) {
+	checkParams(key, bearer, direction)
+	dir := uint32(direction)
+	fresh := uint32(bearer) << 27
+	iv := [4]uint32{fresh ^ dir<<15, count ^ dir<<31, fresh, count}
+	z := NewSnow3G(snowKey(key), iv).Keystream(5)
+	return uint64(z[0])<<32 | uint64(z[1]), uint64(z[2])<<32 | uint64(z[3])
+}
+
+// GF64Mul multiplies in GF(2^64) modulo x^64 + x^4 + x^3 + x + 1.
+func GF64Mul(a, b uint64) uint64 { return mul64(a, b, 0x1B) }
+
+// GF64Inv is the multiplicative inverse (a^(2^64-2)); 0 for 0.
+func GF64Inv(a uint64) uint64 {
+	r, sq := uint64(1), a
+	for i := 1; i < 64; i++ { // exponent 2^64-2 = sum of 2^i for i = 1..63
+		sq = mul64(sq, sq, 0x1B)
+		r = mul64(r, sq, 0x1B)
+	}
+	return r
+}
